@@ -1,13 +1,16 @@
 // C10 — priorities order execution; the first failing rule ends a trigger sequence.
 //
 // Domain: rule sets (1..8 rules over 4 triggering event kinds, priorities 0..5
-// with ties, failure flags) whose Go actions add 0..4 (rarely 5..6) child events through
-// m.NewChildMonitor(prio) + p.AddEvent (kinds without a rule are non-triggering
-// => skipped), 1..3 root cascades started concurrently with AddEventAndWait,
-// workers 1 and 2..8, both fail-on-first-error settings.
+// with ties, failure flags) whose Go actions add 0..4 (sometimes 5..6) child
+// events through m.NewChildMonitor(prio) + p.AddEvent (kinds without a rule are
+// non-triggering => skipped), 1..3 root cascades started concurrently with
+// AddEventAndWait, workers 1 and 2..8, both fail-on-first-error settings.
+// Generated with rapid; plus directed shapes; plus a complete enumeration of
+// the two-level one-worker cascades (child priority a, grandchildren b1..bn).
 //
 // Oracles (all computed from the case, the stamps taken inside the Go actions and
-// the tq.push / tq.pop hook trace which is recorded inside the queue lock):
+// the hook trace: tq.push / tq.pop are recorded inside the queue lock,
+// monitor.finished.locked inside the root monitor's lock):
 //
 //	(a) the actions of the rules triggered by one event do not overlap and run in
 //	    ascending rule priority (ties in any order);
@@ -15,15 +18,21 @@
 //	    cascade has queued at that moment; with one worker the complete processing
 //	    order of every cascade is predicted by a simulation of that policy and
 //	    compared without the hooks;
-//	(c) RootMonitor.HighestPriority() sampled inside actions: with one worker it
-//	    equals the model's minimum over the monitors activated by a triggering
-//	    event which have not finished; with several workers it lies in
-//	    [0, priority of the running event]; after the cascade it is -1;
+//	(c) RootMonitor.HighestPriority() sampled inside actions (at the start and
+//	    after every added event): with one worker it equals the model's minimum
+//	    over the monitors activated by a triggering event which have not finished;
+//	    with any number of workers it lies between the minimum over the monitors
+//	    which were possibly counted and the minimum over those certainly counted
+//	    at the moment of the reading (stamps before / after the reading against
+//	    the activation windows and the finish stamps); after the cascade it is -1;
 //	(d) fail-on-first-error: the executed rules are a priority-respecting prefix of
 //	    the triggered rules ending at the first failing one, every triggering event
 //	    added by an executed rule (also by the failing one) is processed exactly
 //	    once and AllErrors() holds exactly the failing rule; without it all
 //	    triggered rules run and all failures are reported.
+//
+// A wall-clock bound is never a verdict: a cascade which has not finished after
+// 30 s makes the shard INCONCLUSIVE (exit without replay file).
 package c10
 
 import (
@@ -48,12 +57,12 @@ import (
 	"verif/internal/hx"
 )
 
-const rule = "case = (rule set: 1..8 rules over event kinds k0..k3 with priorities 0..5 (ties included), failure flags and 0..4 (rarely 5..6) child events per action with monitor priorities 0..5 and kinds of a deeper level (kinds without a rule are non-triggering => skipped children); 1..3 root cascades started concurrently; workers 1 or 2..8; fail-on-first-error on/off); generated with rapid plus a fixed list of directed shapes; non-trivial = a processed event triggered >= 2 rules of different priority, or some dequeue found >= 2 events of different priority queued for its cascade, or one event added a skipped child next to a triggering one; distinct by (rule set incl. cascade shape, root kinds, workers, fail-on-first-error)"
+const rule = "case = (rule set: 1..8 rules over event kinds k0..k3 with priorities 0..5 (ties included), failure flags and 0..4 (sometimes 5..6) child events per action with monitor priorities 0..5 and kinds of a deeper level (kinds without a rule are non-triggering => skipped children); 1..3 root cascades started concurrently; workers 1 or 2..8; fail-on-first-error on/off); generated with rapid, plus a fixed list of directed shapes, plus the complete enumeration of the one-worker two-level cascades (root adds one child of priority a, the child adds b1..bn; bounds in exhaustive_bounds); non-trivial = a processed event triggered >= 2 rules of different priority, or some dequeue found >= 2 events of different priority queued for its cascade, or one event added a skipped child next to a triggering one; distinct by (rule set incl. cascade shape, root kinds, workers, fail-on-first-error)"
 
 const (
 	nKinds     = 6  // k0..k5; rules only on k0..k3, so k4/k5 never trigger
-	nRuleKinds = 4  //
-	maxPrio    = 5  //
+	nRuleKinds = 4  // kinds which may have rules
+	maxPrio    = 5  // priorities 0..maxPrio
 	maxAdds    = 6  // events added by one action
 	maxEvents  = 64 // cap on the number of events (incl. skipped ones) of one case
 	waitBound  = 30 * time.Second
@@ -377,11 +386,12 @@ func execute(c Case) (*observation, *hx.Failure, bool) {
 
 	proc.Start()
 
-	// Kicker: the pool has a known lost wake-up (property C09): a task pushed
-	// between a worker's empty dequeue and its wait is not picked up until another
-	// AddTask signals. A harmless extra root event every 2 ms keeps C10
-	// independent of it; kick events have their own root monitors and therefore
-	// their own queue - they never mix with the cascades under test.
+	// Kicker: the pool had a lost wake-up (property C09, repaired separately): a
+	// task pushed between a worker's empty dequeue and its wait was not picked up
+	// until another AddTask signalled. A harmless extra root event every 2 ms
+	// keeps C10 independent of that property; kick events have their own root
+	// monitors and therefore their own queue - they never mix with the cascades
+	// under test and are dropped from the trace.
 	stopKick := make(chan struct{})
 	kickDone := make(chan struct{})
 	go func() {
@@ -503,6 +513,12 @@ func runCase(in Case) *hx.Failure {
 	c, reason := normalise(in)
 	if reason != "" {
 		hx.E.Exclude(reason)
+		return nil
+	}
+	if len(inconclusive) > 0 {
+		// the shard is going to be reported as inconclusive anyway: do not
+		// spend another wait bound on every further case
+		hx.E.Exclude("not-run.after-inconclusive")
 		return nil
 	}
 	kb, _ := json.Marshal(c)
@@ -994,7 +1010,13 @@ func evaluate(c Case, obs *observation) (fail *hx.Failure, nontrivial bool, clas
 					}
 					possible = append(possible, fmt.Sprintf("%s(p%d)", e.path, e.prio))
 				}
-				if e.actEnd < smp.t0 && (!done || fin > smp.t1) {
+				// the activation is complete when AddEvent has returned in the adding
+				// action - or earlier, once a worker has started to process the event
+				actDone := e.actEnd
+				if len(e.acts) > 0 && e.acts[0].start < actDone {
+					actDone = e.acts[0].start
+				}
+				if actDone < smp.t0 && (!done || fin > smp.t1) {
 					if hi < 0 || e.prio < hi {
 						hi = e.prio
 					}
@@ -1225,7 +1247,7 @@ var genRule = rapid.Custom(func(t *rapid.T) ruleDraw {
 
 func drawCase(rt *rapid.T) Case {
 	c := Case{Workers: 1}
-	if rapid.IntRange(0, 9).Draw(rt, "multi") >= 4 {
+	if rapid.IntRange(0, 9).Draw(rt, "multi") < 5 {
 		c.Workers = rapid.IntRange(2, 8).Draw(rt, "workers")
 	}
 	c.FailFirst = rapid.Bool().Draw(rt, "failfirst")
